@@ -394,15 +394,21 @@ KERNELS = [k_binary_arith, k_unary_app, k_binary_relation]
 
 
 def families(ctx):
-    return [(mk.__name__, (lambda mk=mk: run_kernel(ctx, mk(ctx)))) for mk in KERNELS]
+    from . import arms
+    return [(mk.__name__, (lambda mk=mk: run_kernel(ctx, mk(ctx)))) for mk in KERNELS] + arms.families(ctx)
 
 
 def run(ctx):
     for name, fn in families(ctx):
         ctx.guarded(name, fn)
-    ctx.bounds += ['operand payloads: every i64; operand kinds: all 7 Cedar value kinds; no unrolling (loop-free kernels)']
+    ctx.bounds += ['operand payloads: every i64; operand kinds: all 7 Cedar value kinds; no unrolling (loop-free kernels)',
+                   'evaluator arms: one node of each kind (&&, ||, if, unary, binary scalar / set / in / tag operators, like, is, has, attribute access) with arbitrary outcomes (value of any kind / residual / error) '
+                   'of its sub-expressions => expressions of any depth by structural induction; entity store as environment (absent / partial / present entity, attribute or tag present or not)']
     ctx.assumptions += ['EvaluationError constructors (type_error_single) and derive-generated From<..> for EvaluationError are opaque logged constructors',
                         'symbolic Value = opaque struct with lazily created ValueKind / Literal discriminants and payloads',
                         'replay through cedar_policy::eval_expression on concretised operands']
-    return ctx.finish('Solver-decided operator semantics of the evaluator kernels (unary_app, binary_arith, ...) executed from the MIR of the current tree over '
-                      'arbitrary Values: exact checked arithmetic, error class and operand order, type errors name the first offending operand.')
+    ctx.assumptions += ['Evaluator::partial_interpret on sub-expressions, Entities::entity, Entity::{get,get_tag}, BTreeMap::get, Set::{contains,is_subset,is_disjoint}, Pattern::wildcard_match, eval_in: environment stubs (logged)',
+                        'structural equality of Values, the set algorithms, the wildcard matcher, eval_in\'s loop, record/set construction, extension calls and parser/EST equivalence are NOT covered']
+    return ctx.finish('Solver-decided operator semantics of the evaluator, executed from the MIR of the current tree: the scalar kernels (unary_app, binary_arith, binary_relation) over arbitrary Values, and every '
+                      'dispatching arm of partial_interpret_internal / eval_if / get_attr over arbitrary sub-expression outcomes: evaluation order, short-circuiting, which error surfaces, type errors, has on absent entities, '
+                      'operand roles handed to the kernels, and the residual built when an operand is unknown.')
